@@ -13,19 +13,19 @@
    energy, unit / orthogonal / transverse polarization vectors, attenuation in (0,1] and not growing with |f|.   *)
 EXTENDS Integers, Sequences, TLC
 
-CONSTANTS Tracers, Geos, Interps, Factors, Moves, Bound
+CONSTANTS Tracers, Geos, Interps, Factors, Moves, Bound, Steps
 
 VARIABLES tracer, geo, interp,       \* fixed per behaviour
-          a, c, mg,                   \* inputs
+          a, c, mg, sx,               \* inputs (sx: index of the grid step)
           M, R,                       \* predicted output coefficients
           last
-vars == <<tracer, geo, interp, a, c, mg, M, R, last>>
+vars == <<tracer, geo, interp, a, c, mg, sx, M, R, last>>
 
 Abs(x) == IF x < 0 THEN 0 - x ELSE x
 Small(x) == Abs(x) <= Bound
 
 Init == /\ tracer \in Tracers /\ geo \in Geos /\ interp \in Interps
-        /\ a = <<1, 0>> /\ c = <<0, 0, 1>> /\ mg = 0
+        /\ a = <<1, 0>> /\ c = <<0, 0, 1>> /\ mg = 0 /\ sx = 1
         /\ M = <<<<0, 0, 1>>, <<0, 0, 0>>>> /\ R = <<1, 0>>
         /\ last = [op |-> "Init"]
 Fixed == UNCHANGED <<tracer, geo, interp>>
@@ -35,32 +35,39 @@ ScaleSig(k) == /\ \A i \in 1..2 : Small(a[i] * k)
                /\ M' = [i \in 1..2 |-> [j \in 1..3 |-> M[i][j] * k]]
                /\ R' = [i \in 1..2 |-> R[i] * k]
                /\ last' = [op |-> "ScaleSig", k |-> k]
-               /\ Fixed /\ UNCHANGED <<c, mg>>
+               /\ Fixed /\ UNCHANGED <<c, mg, sx>>
 AddSig(i, s) == /\ Small(a[i] + s)
                 /\ a' = [a EXCEPT ![i] = @ + s]
                 /\ M' = [M EXCEPT ![i] = [j \in 1..3 |-> @[j] + s * c[j]]]
                 /\ R' = [R EXCEPT ![i] = @ + s]
                 /\ last' = [op |-> "AddSig", i |-> i, s |-> s]
-                /\ Fixed /\ UNCHANGED <<c, mg>>
+                /\ Fixed /\ UNCHANGED <<c, mg, sx>>
 ScalePol(k) == /\ \A j \in 1..3 : Small(c[j] * k)
                /\ c' = [j \in 1..3 |-> c[j] * k]
                /\ M' = [i \in 1..2 |-> [j \in 1..3 |-> M[i][j] * k]]
                /\ last' = [op |-> "ScalePol", k |-> k]
-               /\ Fixed /\ UNCHANGED <<a, mg, R>>
+               /\ Fixed /\ UNCHANGED <<a, mg, sx, R>>
 AddPol(j, s) == /\ Small(c[j] + s)
                 /\ c' = [c EXCEPT ![j] = @ + s]
                 /\ M' = [i \in 1..2 |-> [M[i] EXCEPT ![j] = @ + s * a[i]]]
                 /\ last' = [op |-> "AddPol", j |-> j, s |-> s]
-                /\ Fixed /\ UNCHANGED <<a, mg, R>>
+                /\ Fixed /\ UNCHANGED <<a, mg, sx, R>>
 ShiftGrid(m) == /\ mg' = mg + m
                 /\ last' = [op |-> "ShiftGrid", m |-> m]
-                /\ Fixed /\ UNCHANGED <<a, c, M, R>>
+                /\ Fixed /\ UNCHANGED <<a, c, sx, M, R>>
+(* the same samples on a grid of another step: same coefficients, but over the base outputs of that step -- the path
+   object is the same one as before, so nothing computed for the previous step may leak *)
+ChangeStep(s) == /\ s # sx
+                 /\ sx' = s
+                 /\ last' = [op |-> "ChangeStep", s |-> s]
+                 /\ Fixed /\ UNCHANGED <<a, c, mg, M, R>>
 
 Next == \/ \E k \in Factors : ScaleSig(k)
         \/ \E i \in 1..2, s \in {1, -1} : AddSig(i, s)
         \/ \E k \in Factors : ScalePol(k)
         \/ \E j \in 1..3, s \in {1, -1} : AddPol(j, s)
         \/ \E m \in Moves : ShiftGrid(m)
+        \/ \E s \in Steps : ChangeStep(s)
 Spec == Init /\ [][Next]_vars
 
 Consistent == /\ \A i \in 1..2, j \in 1..3 : M[i][j] = a[i] * c[j]
